@@ -290,3 +290,53 @@ def reclaim_precondition(I, ev, F):
     if not gated:
         return set()
     return {('le', app('add', p, app('size', L)), F)}
+
+
+# ------------------------------------------------------------------ return values
+def alternatives(I, t, facts, depth=0):
+    """flatten phi / ite structure of a value into (term, facts) alternatives (facts of the
+    predecessor edge are added for each phi alternative)"""
+    if depth > 6:
+        return [(t, facts)]
+    if t[0] == 'phi':
+        pf = I.phi_facts.get(t[1][:2], {})
+        out = []
+        for p, x in t[2]:
+            out.extend(alternatives(I, x, facts | set(pf.get(p, ())), depth + 1))
+        return out
+    if t[0] == 'ite':
+        return (alternatives(I, t[2], facts | I.truth(None, t[1], True), depth + 1) +
+                alternatives(I, t[3], facts | I.truth(None, t[1], False), depth + 1))
+    return [(t, facts)]
+
+
+def success_payloads(I, res):
+    """(payload term, facts) for every way the entry returns Ok(..)/Some(..); failures are skipped;
+    a plain (non Result/Option) return value is returned as is"""
+    out = []
+    if res.ret is None or res.ret_state is None:
+        return out
+    for t, facts in alternatives(I, res.ret, set(res.ret_state.facts)):
+        if t[0] == 'agg' and t[1] in ('Option', 'Result'):
+            if t[2] in ('Some', 'Ok'):
+                pv = field_of(t, '0')
+                for t2, f2 in alternatives(I, pv, facts):
+                    out.append((t2, f2))
+            continue
+        if t == ('never',):
+            continue
+        out.append((t, facts))
+    return out
+
+
+def pointer_of(t):
+    """the data pointer of a NonNull<[u8]> / slice value, or t itself"""
+    if t[0] == 'agg' and t[1] in ('slice', 'rawptr'):
+        return t[3][0][1]
+    return t
+
+
+def run_fn(ctx, body_id, config='rel-all'):
+    I = ArenaInterp(ctx.db(config))
+    r = I.run_entry(body_id)
+    return I, r
